@@ -70,10 +70,10 @@ func hC02PKCERef(method, challenge, verifier string) bool {
 	return challenge == hC02B64URL(h[:])
 }
 
-// hC02SymMethod: a code_challenge_method. `methods` (param) selects how many of the classes are explored:
+// hC02SymMethod: a code_challenge_method. `classes` selects how many of the classes are explored:
 // "S256", "plain", any 4-byte string, "", any string of 1..5 bytes.
-func hC02SymMethod() string {
-	switch vChoice(vParam("methods", 3)) {
+func hC02SymMethod(classes int) string {
+	switch vChoice(classes) {
 	case 0:
 		return "S256"
 	case 1:
@@ -90,9 +90,9 @@ func hC02SymMethod() string {
 
 // H02fk: validatePKCEParams accepts exactly when the reference predicate holds.
 func H02fk() {
-	method := hC02SymMethod()
+	method := hC02SymMethod(vParam("k_methods", 5))
 	vTag("verifier")
-	verifier := vString(vLen(0, vParam("verifier", 2)))
+	verifier := vString(vLen(0, vParam("k_verifier", 2)))
 	vTag("challenge")
 	challenge := vString(43 + vLen(0, 2) - 1)
 	got := validatePKCEParams(PKCEParams{Challenge: challenge, ChallengeMethod: method, Verifier: verifier})
@@ -139,8 +139,8 @@ func H02f() {
 	db := newHC02DB()
 	r := Wrapper{storageEngine: hC02Engine{db: db}, auth: hC02Auth{publicURL: publicURL}}
 
-	t0 := hC02SymTime("t0", 0, 1<<33)
-	t1 := hC02SymTime("t1", 0, 1<<33)
+	t0 := hC02SymTime("t0", 0, 1<<33, vParam("f_nsecs", 1))
+	t1 := hC02SymTime("t1", 0, 1<<33, vParam("f_nsecs", 1))
 	vAssume(t0.sec < t1.sec || (t0.sec == t1.sec && t0.nsec <= t1.nsec))
 
 	subject := "s"
@@ -148,7 +148,7 @@ func H02f() {
 	sessClient := vString(vLen(0, 1))
 	vTag("session.scope")
 	sessScope := vString(1)
-	method := hC02SymMethod()
+	method := hC02SymMethod(vParam("f_methods", 3))
 	vTag("session.challenge")
 	challenge := vString(43)
 	vTag("storedcode")
@@ -168,7 +168,7 @@ func H02f() {
 
 	req := HandleTokenRequestFormdataRequestBody{
 		Code:         hC02OptString("code", 1),
-		CodeVerifier: hC02OptString("verifier", vLen(0, vParam("verifier", 1))),
+		CodeVerifier: hC02OptString("verifier", vLen(0, vParam("f_verifier", 1))),
 		ClientId:     hC02OptString("client_id", vLen(0, 1)),
 	}
 	dpopHeader := vBool()
